@@ -7,12 +7,13 @@ wt=$(mktemp -d /tmp/aslwt.XXXXXX)
 git -C /repo worktree add -q --detach "$wt" HEAD || exit 3
 if ! git -C "$wt" apply --whitespace=nowarn "$patch"; then echo "PATCH DOES NOT APPLY"; git -C /repo worktree remove --force "$wt"; exit 3; fi
 cd /verif
-VERIF_REPO="$wt" VERIF_CACHE=/verif/.cache/selftest ./check "$prop" --tier "$tier" > "$wt.log" 2>&1
+cache=/verif/.cache/selftest.$$
+VERIF_REPO="$wt" VERIF_CACHE=$cache ./check "$prop" --tier "$tier" > "$wt.log" 2>&1
 rc=$?
 grep -E "^VIOLATION|^  key|^KNOWN|^C[0-9]+ |^INCONC|^HARNESS" "$wt.log" | cut -c1-300 | head -${MAXLINES:-12}
 rm -f "$wt.log"
 git -C /repo worktree remove --force "$wt"
-rm -rf /verif/.cache/selftest/build/*-* 2>/dev/null
+rm -rf "$cache"
 # replays written by this run belong to the scratch tree, not to /repo
 git -C /verif status --porcelain replays 2>/dev/null | awk '{print $2}' | xargs -r rm -rf
 exit $rc
